@@ -21,9 +21,10 @@ ASSUMPTIONS = [
     "instance block; stage 2 (Props/C04Rb) proves that abstraction for insertion AND removal (Rb.insert / Rb.remove mirror "
     "rb_insert_node/rb_insert_color and rb_remove/rb_remove_color case by case; Rb.find mirrors rb_find; the shapes — colours, "
     "pre-order, value:serial — the position of the lyds_tree metadata and the sibling order are compared with the real "
-    "structure after EVERY op of insert/unlink scripts, op rbs); the lyds_merge / lyds_pool paths of bulk moves are not in "
-    "the Lean model: the white-box harness checks in-order = sibling order and the red-black invariants on the real "
-    "structure after every op",
+    "structure after EVERY op of insert/unlink scripts, op rbs); lyds_merge (bulk move of a whole list onto present "
+    "instances) is Rb.mergeTree, compared the same way (op rbm); the lyds_pool of lyd_dup_siblings_to_parent / "
+    "lyd_merge is not in the Lean model: the white-box harness checks in-order = sibling order and the red-black "
+    "invariants on the real structure after every op",
     "key types of the generated schemas: int32, uint8, string (type plugins' sort callbacks: numeric / strcmp)",
     "ops outside the model's fragment (lyd_move_nodes of a multi-node list, dup, merge, validate, implicit, opaque nodes "
     "through insert_before/after, second key leaf) are judged by the C-side battery only",
@@ -443,6 +444,60 @@ def rb_scripts(cx, schs):
         cx.fail("sib", "red-black nodes / lyds_tree metadata leaked by insert/unlink scripts", {"reply": a, "attrib": None})
 
 
+def rb_merges(cx, schs):
+    """lyds_merge: two system-ordered leaf-lists built by insert/unlink scripts, then ALL instances of the second (or a
+    lyd_dup_siblings copy of them: no sorting tree) moved onto the first in one call; resulting red-black shape, metadata
+    position, white-box verdict and sibling order vs Rb.mergeTree.  Exhaustive over all pairs of insert sequences of
+    length <= 3 over 3 keys (both directions of every tree / no-tree combination), random larger ones."""
+    sch = schs["S1"]
+    rng = cx.sub_rng("rbm")
+    seqs = [list(t) for n in range(1, 4) for t in itertools.product([1, 2, 3], repeat=n)]
+    cases = []
+    for d in seqs:
+        for s_ in seqs:
+            cases.append(("exh", ["i%d" % k for k in d], ["i%d" % k for k in s_], False))
+    for d in seqs[:12]:
+        for s_ in seqs:
+            if len(s_) > 1:
+                cases.append(("exh-dup", ["i%d" % k for k in d], ["i%d" % k for k in s_], True))
+
+    def rnd_script(n, dom, removals):
+        live, q = 0, []
+        while live < n or len(q) < n:
+            if live and removals and rng.random() < 0.25:
+                q.append("u%d" % rng.randrange(live)); live -= 1
+            else:
+                q.append("i%d" % rng.randrange(-dom, dom)); live += 1
+            if len(q) > 4 * n + 4:
+                break
+        return q
+    for _ in range(cx.n(500, 6000)):
+        dom = rng.choice([2, 5, 30, 1000])
+        cases.append(("random", rnd_script(rng.choice([1, 2, 3, 5, 9, 20]), dom, True), rnd_script(rng.choice([1, 2, 3, 5, 9, 20]), dom, True),
+                      rng.random() < 0.25))
+    lines = ["%d sib rbm c %s %s %s %s%s" % (i, sch.desc_tok, sch.yang_tok, ",".join(d), "D" if dup else "", ",".join(s_))
+             for i, (_, d, s_, dup) in enumerate(cases)]
+    lines.append("%d sib rbleak" % len(cases))
+    ri = cx.run_impl(WB, lines, component="sib")
+    rm = cx.run_model(lines)
+    for i, (kind, d, s_, dup) in enumerate(cases):
+        a, b = ri.get(str(i), ["err", "NoReply"]), rm.get(str(i), ["err", "NoReply"])
+        cx.count(("rbm", tuple(d), tuple(s_), dup), True, "sib:rbm:%s" % kind)
+        if a != b:
+            cx.disagree("sib-rbm", "rbm dst=%s src=%s%s" % (",".join(d), "D" if dup else "", ",".join(s_)), " ".join(a)[:300], " ".join(b)[:300])
+            continue
+        toks = a[1:]
+        v = [t for t in toks if t.startswith("V")]
+        order = [int(t.split(":")[0]) for t in toks[toks.index("=") + 1:]] if "=" in toks else []
+        if (v and v[0] != "V0") or order != sorted(order):
+            cx.fail("sib", "red-black tree / sibling order broken after moving a whole (leaf-)list onto another (lyds_merge)",
+                    {"dst": d, "src": s_, "dup": dup, "state": " ".join(a)[:300], "attrib": None})
+    a, b = ri.get(str(len(cases)), ["err", "NoReply"]), rm.get(str(len(cases)), ["err", "NoReply"])
+    cx.count(("rbm", "leak"), True, "sib:rbm:leakcheck")
+    if a != b:
+        cx.fail("sib", "red-black nodes / lyds_tree metadata leaked by bulk moves (lyds_merge)", {"reply": a, "attrib": None})
+
+
 def corpus_scripts():
     d = os.path.join(paths.CORPUS, "sib")
     out = []
@@ -503,6 +558,7 @@ def run(cx):
 
     rb_shapes(cx, schs)
     rb_scripts(cx, schs)
+    rb_merges(cx, schs)
 
     # 3. laws on the implementation
     perm_law(cx, schs)
